@@ -162,6 +162,7 @@ func (u *Unit) execFor(s *ast.ForStmt, st *State) []Outcome {
 		case oNormal, oContinue:
 			cont = append(cont, o.st)
 		case oBreak:
+			u.checkExhaustive(o.st, ls, n, s)
 			after = append(after, o.st)
 		default:
 			outs = append(outs, o)
@@ -334,6 +335,7 @@ func (u *Unit) execRangeSlice(s *ast.RangeStmt, st *State) []Outcome {
 		case oNormal, oContinue:
 			cont = append(cont, o.st)
 		case oBreak:
+			u.checkExhaustive(o.st, ls, n, s)
 			after = append(after, o.st)
 		default:
 			outs = append(outs, o)
@@ -465,6 +467,7 @@ func (u *Unit) execRangeMap(s *ast.RangeStmt, st *State, mt *types.Map) []Outcom
 		case oNormal, oContinue:
 			cont = append(cont, o.st)
 		case oBreak:
+			u.checkExhaustive(o.st, ls, n, s)
 			after = append(after, o.st)
 		default:
 			outs = append(outs, o)
@@ -492,4 +495,12 @@ func (u *Unit) execRangeOpaque(s *ast.RangeStmt, st *State) []Outcome {
 		u.havocHeap(st, k)
 	}
 	return []Outcome{{kind: oNormal, st: st}}
+}
+
+// checkExhaustive: `loop N exhaustive` -- the loop is not left by break
+func (u *Unit) checkExhaustive(st *State, ls *LoopSpec, n int, node ast.Node) {
+	if ls == nil || ls.Exhaustive == nil || u.inCommute {
+		return
+	}
+	u.oblige(st, fmt.Sprintf("loop#%d#exhaustive", n), "assert", "false", u.clauseProps(ls.Exhaustive), ls.Exhaustive, "the loop is not left by break (every element is processed): "+ls.Exhaustive.Text, node)
 }
